@@ -59,9 +59,21 @@ def judge(case) -> Verdict:
     if not items:
         raise Invalid()
     v = Verdict()
-    acl = A.build_acl(acl_case)
+    bind = case.get("bind") or {}
+    if not all(isinstance(x, str) for k in ("input", "output") for x in bind.get(k) or []):
+        raise Invalid()
+    # interface bindings as the config-level functions record them: no influence on any of this
+    acl = A.build_acl(acl_case, **{k: list(bind[k]) for k in ("input", "output") if bind.get(k)})
     if len(acl.items) != len(items):
         raise Invalid()
+    reuse = case.get("reuse")
+    if reuse:
+        # ONE object listed at two positions of the ACL (an entry repeated by reference, not by copy)
+        src, dst = reuse[0] % len(items), reuse[1] % (len(items) + 1)
+        acl.items.insert(dst, acl.items[src])
+        items = list(items)
+        items.insert(dst, items[src])
+        acl_case = dict(acl_case, items=items)
     t0 = acl.line
     kinds = [("rem", it["text"]) if it["t"] == "rem" else ("ace", None) for it in items]
     heads = [k[1] for k in kinds if k[0] == "rem" and k[1].startswith(prefix)]
@@ -101,6 +113,16 @@ def judge(case) -> Verdict:
         v.fail("group:ungrouped-top-level-item", dict(detail, t1=t1))
     tcam_check("after-group")
     if v.fails:
+        return v
+    if reuse:
+        acl.ungroup()
+        if distinct and acl.line != t0:
+            v.fail("ungroup:text-changed:one-object-listed-twice", dict(detail, after=acl.line))
+        elif not distinct and Counter(acl.line.split("\n")[1:]) - Counter(lines0):
+            v.fail("ungroup:entries-invented:one-object-listed-twice", dict(detail, after=acl.line))
+        tcam_check("after-ungroup")
+        v.nt(nblocks >= 1)
+        v.label("one-object-listed-twice", f"blocks={min(nblocks, 6)}")
         return v
     # ---- (2) permutation of the top-level items: blocks move as units
     blocks = [[x.line for x in o.items] for o in acl.items]
@@ -186,7 +208,11 @@ def case_st(draw, tier):
                         dup_headings=True, group_by=False, neq_multi=True, comma_headings=True))
     return {"acl": acl, "prefix": acl["prefix"], "perm": draw(st.lists(st.integers(0, 50), min_size=1, max_size=8)),
             "how": draw(st.sampled_from(["sortkey", "sortkey", "reverse", "popinsert"])),
-            "start": draw(st.sampled_from([1, 10, 100])), "step": draw(st.sampled_from([1, 5, 10]))}
+            "start": draw(st.sampled_from([1, 10, 100])), "step": draw(st.sampled_from([1, 5, 10])),
+            "bind": draw(st.sampled_from([{}, {}, {"input": ["interface Ethernet1/1"]},
+                                          {"input": ["interface Ethernet1/1", "interface Ethernet1/2"], "output": ["interface Vlan5"]},
+                                          {"output": ["interface Ethernet1/1", "interface Ethernet1/2"]}])),
+            "reuse": draw(st.sampled_from([None, None, None, None, [draw(st.integers(0, 11)), draw(st.integers(0, 12))]]))}
 
 
 def judge_mixed(case) -> Verdict:
